@@ -6,7 +6,8 @@ import Rivaas.Model.VersionChain
 Driver for C13. Case line:
   <id> <nOpts> { P <pattern> | H <name> | Q <param> | A <pattern> | C <n> }*
        <default> <nValid> <v>* <sendVersionHeader> <sendWarning299> <enforceSunset> <now>
-       <nLC> { <version> <deprecated> { 0 | 1 <secs> <httpFormat> <rfc3339> } <migrationURL> }*
+       { <nLC> { <version> <deprecated> { 0 | 1 <secs> <httpFormat> <rfc3339> } <migrationURL> }*
+       | S <nOps> { V <id> <version> <n> <lopt>* | C <id> <n> <lopt>* }* }     lopt: D | DS | S <secs> <httpFormat> <rfc3339> | M <url> | X
        <nRoutes> { { 0 | 1 <version> } <method> <path> }*
        <method> <path> <rawQuery> <nLib> { N | H <v> | Q <has> <get> | A <v> | C <v> }*
     => P | R <status> { 0 | 1 { 0 | 1 <tree> } <route> } { 0 | 1 <Version()> } <X-API-Version> <Deprecation> <Sunset> <Link> <Warning>
@@ -40,6 +41,27 @@ def pLC : P (Bytes × LC) := do
   let mig ← str
   pure (v, { deprecated := dep, sunset := sun, migration := mig })
 
+def pLOpt : P LOpt := do
+  let k ← tok
+  if k == "D" then pure .deprecated
+  else if k == "DS" then pure .deprecatedSince
+  else if k == "S" then (do let d ← nat; let h ← str; let r ← str; pure (.sunset (d, h, r)))
+  else if k == "M" then LOpt.migration <$> str
+  else if k == "X" then pure .successor
+  else failure
+
+def pLOp : P LOp := do
+  let k ← tok
+  if k == "V" then (do let id ← nat; let v ← str; let o ← list pLOpt; pure (.version id v o))
+  else if k == "C" then (do let id ← nat; let o ← list pLOpt; pure (.configure id o))
+  else failure
+
+/-- the lifecycles of a case: the effective list, or (`S` first) a script of `Version` / `Configure` statements -/
+def pLifecycles : P (List (Bytes × LC)) := do
+  match (← peek) with
+  | some "S" => (do lit "S"; let ops ← list pLOp; pure (lifecyclesOf ops))
+  | _ => list pLC
+
 def pRoute : P Route := do
   let v ← opt str
   let m ← str
@@ -54,7 +76,7 @@ def pInput : P (Cfg × List Route × Req) := do
   let sw ← bool
   let enf ← bool
   let now ← nat
-  let lcs ← list pLC
+  let lcs ← pLifecycles
   let routes ← list pRoute
   let m ← str
   let p ← str
